@@ -287,6 +287,8 @@ class Executor:
         if isinstance(v, bool):
             return v
         if j.get("str"):
+            if "hex" in j:
+                return bytes.fromhex(j["hex"]).decode("latin1")   # one character per byte
             return v
         if j.get("float"):
             raise ExecError("float constant")
@@ -771,6 +773,11 @@ class Executor:
                 else:
                     c, idx = self._walk(path, Ptr(x.obj, x.path))
                     env[ins["name"]] = StrV(tuple(c[idx][x.off:x.off + x.len]))
+            elif tt.u.k == "slice" and ft.u.k == "basic" and ft.u.name in ("string", "untyped string") and isinstance(x, (str, StrV)):
+                # []byte(string): a fresh array holding the bytes
+                bs = list(x.b) if isinstance(x, StrV) else list(x.encode("latin1"))
+                oid = self.new_obj(path, ("array", len(bs), self.prog.T("uint8")), name="[]byte(string)", init=bs, kind="heap")
+                env[ins["name"]] = SliceV(oid, (), 0, len(bs), len(bs))
             else:
                 raise ExecError("convert %s -> %s" % (ft, tt))
         elif op == "If":
@@ -799,7 +806,7 @@ class Executor:
             n = len(x)
             self.bounds(path, i, n, "index out of range")
             if type(i) is int:
-                env[ins["name"]] = x[i]
+                env[ins["name"]] = ord(x[i]) if isinstance(x, str) else (x.b[i] if isinstance(x, StrV) else x[i])
             else:
                 r = x[n - 1]
                 for k in range(n - 2, -1, -1):
